@@ -35,7 +35,7 @@ theorem filter_has_delRefs (remote : RefMap) (cands : List Ref) :
   simp only [RefMap.has, get_delRefs, List.mem_filter, hr, true_and]
   cases remote.get r <;> simp
 
-theorem mem_delRefs {m : RefMap} {rs : List Ref} {rc : Ref × Commit} (h : rc ∈ delRefs m rs) :
+theorem mem_delRefs_c10 {m : RefMap} {rs : List Ref} {rc : Ref × Commit} (h : rc ∈ delRefs m rs) :
     rc ∈ m ∧ rc.1 ∉ rs := by
   unfold delRefs at h
   induction rs generalizing m with
@@ -50,7 +50,7 @@ theorem allQRefs_delRefs (remote : RefMap) : allQRefs (delRefs remote (allQRefs 
   unfold allQRefs
   rw [List.map_eq_nil_iff, List.filter_eq_nil_iff]
   intro rc hrc hq
-  obtain ⟨hm, hn⟩ := mem_delRefs hrc
+  obtain ⟨hm, hn⟩ := mem_delRefs_c10 hrc
   apply hn
   simp only [List.mem_map, List.mem_filter]
   exact ⟨rc, ⟨hm, hq⟩, rfl⟩
@@ -413,7 +413,7 @@ theorem conflictCheck_nil {l : Loc} (h : l.orc = []) (dc sc : Commit) : conflict
   · rfl
   · simp [Loc.ask, h]
 
-theorem tipsOf_get {refs : RefMap} {rs : List Ref} {rc : Ref × Commit} (h : rc ∈ tipsOf refs rs) :
+theorem tipsOf_get_c10 {refs : RefMap} {rs : List Ref} {rc : Ref × Commit} (h : rc ∈ tipsOf refs rs) :
     refs.get rc.1 = some rc.2 := by
   unfold tipsOf at h
   simp only [List.mem_filterMap] at h
@@ -526,7 +526,7 @@ theorem prepare_second {s : Sys} (hnq : s.useQueue = false) (pr : PrInfo) {sc : 
     intro X x
     apply push_same
     intro rc hrc
-    rw [← m2]; exact tipsOf_get hrc
+    rw [← m2]; exact tipsOf_get_c10 hrc
   constructor
   · intro p hp
     unfold prepare at hp
@@ -756,7 +756,7 @@ theorem prepare_insync {s : Sys} (hs : s.WF) (hq : s.useQueue = true) (pr : PrIn
     · rw [applyOps_single]
       apply push_same
       intro rc hrc
-      rw [← hget]; exact tipsOf_get hrc
+      rw [← hget]; exact tipsOf_get_c10 hrc
 
 /-- the steady state of a pull request waiting at a gate in queue mode -/
 structure InSyncState (s : Sys) (pr : PrInfo) : Prop where
